@@ -183,7 +183,37 @@ PROPS["C16"] = {
     "assumptions": [],
 }
 
+PROPS["C02"] = {
+    "modules": ["SlogModel.Props.C02"],
+    "components": [("client", 400, 6000)],
+    "rule": "one case = one script run against the real baseoutput.NewClientWorker with a scripted ClosableClientConnection: "
+            "outcome (ok / error / block until close or deadline / unknown-id / out-of-order / positional ACK) of every successive "
+            "connect, send, ping and ACK read, 1-12 chunks fed on a schedule, stop and SIGUSR1 at random event counts, max session "
+            "age 0/1/2/5/15 ms, GOMAXPROCS 1/2/8 and a yield/sleep pattern inside the connection calls and callbacks; all client "
+            "timeouts scaled to 1-20 ms; every connection call and callback is logged under one mutex; distinct by script; "
+            "non-trivial = at least one connection or callback event",
+    "level_text": "Theorems over every finite action sequence of the transition system Client.step (one action per channel / map / "
+                  "connection operation of sender, acknowledger and worker loop, every outcome of connect / send / ACK read, "
+                  "every stop and reconnect moment, every interleaving): C02_confirmed_after_ack (a confirmed chunk has sendOk k c "
+                  "and later ack k (c | positional) immediately before its report), C02_resolved_exactly_once (taken = confirmed + "
+                  "handed back + held, with multiplicity; nothing twice), C02_finished_all_resolved (after OnFinished nothing is "
+                  "held), C02_resend_order (ids strictly increase on every connection), C02_dedup_never_removes, "
+                  "C02_trace_resolved_once, C02_monitored_trace (a log accepted by the monitor inherits the theorems). Tie: the "
+                  "log of every run of the real client must be accepted by Client.monitor (it is a run of the transition system, "
+                  "with the same confirmations, leftovers and taken chunks) and by Client.checkTrace; eight regenerated source "
+                  "facts (acknowledger statement order, leftover sources, sort, lastChunk discipline, channel capacity, final "
+                  "hand-over, callback call sites).",
+    "level_note": "Trusted: Lean kernel + 3 standard axioms; the monitor correspondence samples schedules of the real goroutines "
+                  "(the proof covers all interleavings of the model; the harness samples those of the code); the scripted "
+                  "connection honours the contract 'Close makes pending operations return'. PARTIAL: the liveness sentence "
+                  "(every unacknowledged chunk is retransmitted until acknowledged) is not a theorem; the harness only reports a "
+                  "client that fails to finish within 8 s of a stop request.",
+    "partial": "liveness clause (retransmission until acknowledged) not a theorem; real scheduling sampled",
+    "assumptions": ["ClosableClientConnection.Close unblocks pending SendChunk / ReadChunkAck",
+                    "chunk ids in the queue are distinct and increasing (C11_ids_increasing)"],
+}
+
 NOT_APPLICABLE = {k: "check not built yet in this round (planned in DESIGN.md section 6); no claim is made" for k in
                   ["C%02d" % i for i in range(1, 20)]}
 
-HOOK_COMMITS = []
+HOOK_COMMITS = ["b1a24e0", "ad52c8e"]
